@@ -574,10 +574,8 @@ def _validate_zone_tree_structure(
             return "/".join([root["name"], *path_components, o_zone_name])
         return "/".join([root["name"], o_zone_name])
 
-    # Sort for deterministic naming (stability aids testing/debugging)
-    for stream in sorted(stream_iter, key=lambda s: (s.zone, s.name)):
-        original_zone = stream.zone
-        z_path = _split_zone_name(original_zone)
+    def _descend(z_path: List[str]):
+        """Walk (creating as needed) the process-zone nodes named by a label."""
         current = root
         path_components: List[str] = []
         for z_name in z_path:
@@ -589,6 +587,19 @@ def _validate_zone_tree_structure(
                 }
             current = current["children"][z_name]
             path_components.append(z_name)
+        return current, path_components
+
+    # Sort for deterministic naming (stability aids testing/debugging)
+    ordered_streams = sorted(stream_iter, key=lambda s: (s.zone, s.name))
+
+    # Create every zone the labels name first, so that generated unit-operation
+    # names cannot collide with a zone another label refers to.
+    for stream in ordered_streams:
+        _descend(_split_zone_name(stream.zone))
+
+    for stream in ordered_streams:
+        original_zone = stream.zone
+        current, path_components = _descend(_split_zone_name(original_zone))
 
         zone_key = tuple(path_components)
         zone_counters[zone_key] += 1
